@@ -179,3 +179,10 @@ func MsgError(format string, a ...any) {
 func FuzzyRank(source string, targets []string) fuzzy.Ranks { return nil }
 
 var _ = sort.Strings
+
+// ---- runtime.NumCPU ---------------------------------------------------------------------------------
+
+// CPUs is what runtime.NumCPU reports to the code under test.
+var CPUs = 4
+
+func NumCPU() int { return CPUs }
